@@ -4,6 +4,7 @@ import (
 	"errors"
 	"fmt"
 	"slices"
+	"strconv"
 	"strings"
 
 	"github.com/cedar-policy/cedar-go/internal/parser"
@@ -836,7 +837,7 @@ func (v *Validator) typeOfHas(env *requestEnv, n ast.NodeTypeHas, caps capabilit
 	resultType := v.hasResultType(t, n.Value)
 
 	if _, isBool := resultType.(typeBool); isBool {
-		if varName := exprVarName(n.Arg); varName != "" {
+		if varName := exprVarKey(n.Arg); varName != "" {
 			if caps.has(capability{varName: varName, attr: n.Value}) {
 				resultType = typeTrue{}
 			}
@@ -844,7 +845,7 @@ func (v *Validator) typeOfHas(env *requestEnv, n ast.NodeTypeHas, caps capabilit
 	}
 
 	newCaps := caps
-	if varName := exprVarName(n.Arg); varName != "" {
+	if varName := exprVarKey(n.Arg); varName != "" {
 		newCaps = caps.add(capability{varName: varName, attr: n.Value})
 	}
 
@@ -909,7 +910,7 @@ func (v *Validator) typeOfAccess(env *requestEnv, n ast.NodeTypeAccess, caps cap
 
 	// Check if the attribute is optional and requires a `has` guard
 	if !attrType.required {
-		varName := exprVarName(n.Arg)
+		varName := exprVarKey(n.Arg)
 		if varName == "" || !caps.has(capability{varName: varName, attr: n.Value}) {
 			errs = append(errs, v.unsafeOptionalAccessError(env, t, n.Value, exprVarName(n.Arg)))
 		}
@@ -1065,10 +1066,10 @@ func (v *Validator) typeOfHasTag(env *requestEnv, n ast.NodeTypeHasTag, caps cap
 	}
 
 	newCaps := caps
-	if varName := exprVarName(n.Left); varName != "" {
+	if varName := exprVarKey(n.Left); varName != "" {
 		tagKey := tagCapabilityKey(n.Right)
 		if tagKey != "" {
-			newCaps = caps.add(capability{varName: varName, attr: types.String("__tag:" + tagKey)})
+			newCaps = caps.add(capability{varName: varName, attr: types.String(tagKey), tag: true})
 		}
 	}
 
@@ -1115,9 +1116,9 @@ func (v *Validator) typeOfGetTag(env *requestEnv, n ast.NodeTypeGetTag, caps cap
 		}
 	}
 
-	varName := exprVarName(n.Left)
+	varName := exprVarKey(n.Left)
 	tagKey := tagCapabilityKey(n.Right)
-	hasCapability := varName != "" && tagKey != "" && caps.has(capability{varName: varName, attr: types.String("__tag:" + tagKey)})
+	hasCapability := varName != "" && tagKey != "" && caps.has(capability{varName: varName, attr: types.String(tagKey), tag: true})
 
 	if hasCapability {
 		// Capability is only set by hasTag when entity supports tags
@@ -1406,6 +1407,20 @@ func isEntityOrSetOfEntity(t cedarType) bool {
 		return isEntityType(st.element)
 	}
 	return false
+}
+
+// exprVarKey identifies an access chain for capability tracking. Unlike exprVarName (used in messages) every
+// attribute name is quoted, so principal["a.b"] and principal.a.b are different chains.
+func exprVarKey(n ast.IsNode) types.String {
+	if nd, ok := n.(ast.NodeTypeVariable); ok {
+		return nd.Name
+	}
+	if nd, ok := n.(ast.NodeTypeAccess); ok {
+		if parent := exprVarKey(nd.Arg); parent != "" {
+			return parent + "." + types.String(strconv.Quote(string(nd.Value)))
+		}
+	}
+	return ""
 }
 
 func exprVarName(n ast.IsNode) types.String {
